@@ -33,7 +33,7 @@ def readD (n : Nat) : Nat := cmdD + n * DEFAULT_READ_RETRIES + cmdD
 def payload (blocks : List Bytes) : Nat := (blocks.map List.length).sum
 /-- bytes of `write` -/
 def writeB (blocks : List Bytes) : Nat :=
-  cmdB + cmdB + cmdB + (DEFAULT_WRITE_RETRIES + 1) + (DEFAULT_WRITE_RETRIES + 1) + 1 + (DEFAULT_WRITE_RETRIES + 1)
+  cmdB + cmdB + cmdB + (DEFAULT_WRITE_RETRIES + 1) + (DEFAULT_WRITE_RETRIES + 1) + 1 + 1 + (DEFAULT_WRITE_RETRIES + 1)
     + blocks.length * ((DEFAULT_WRITE_RETRIES + 1) + 4) + payload blocks
 def writeD (blocks : List Bytes) : Nat :=
   cmdD + cmdD + cmdD + DEFAULT_WRITE_RETRIES + DEFAULT_WRITE_RETRIES + DEFAULT_WRITE_RETRIES
@@ -303,8 +303,20 @@ theorem write_bounded (blocks : List Bytes) (idx : Nat) :
     (?_ : Bounded _ (writeB blocks) (writeD blocks))) (by omega) (by omega)
   split
   · bounded [cardCommand_bounded B _ _, waitNotBusy_bounded B _, writeData_bounded B _ _, readByte_bounded B]
-  · bounded [cardCommand_bounded B _ _, cardAcmd_bounded B _ _, waitNotBusy_bounded B _,
-      writeBlocks_bounded B _, writeByte_bounded B _]
+  · have hstop : Bounded (stopWrite B) ((DEFAULT_WRITE_RETRIES + 1) + 1 + 1 + (DEFAULT_WRITE_RETRIES + 1))
+        (DEFAULT_WRITE_RETRIES + DEFAULT_WRITE_RETRIES) := by
+      unfold stopWrite
+      bounded [waitNotBusy_bounded B _, writeByte_bounded B _, readByte_bounded B]
+    refine Bounded.mono (Bounded.bind (cardAcmd_bounded B _ _) fun _ => Bounded.bind (waitNotBusy_bounded B _) fun _ =>
+      Bounded.bind (cardCommand_bounded B _ _) fun _ =>
+      Bounded.bind (Bounded.attempt (writeBlocks_bounded B blocks)) fun r =>
+        (?_ : Bounded _ ((DEFAULT_WRITE_RETRIES + 1) + 1 + 1 + (DEFAULT_WRITE_RETRIES + 1))
+          (DEFAULT_WRITE_RETRIES + DEFAULT_WRITE_RETRIES))) ?_ ?_
+    · split
+      · bounded []
+      · exact Bounded.mono (Bounded.bind (Bounded.attempt hstop) fun st =>
+          (by split <;> bounded [] : Bounded _ 0 0)) (by omega) (by omega)
+    all_goals (sd_bounds; omega)
 
 theorem readCsd_bounded : Bounded (readCsd B) csdB csdD := by
   unfold readCsd
